@@ -54,7 +54,7 @@ def line_cases(draw):
     expected.append([name, wire.dec_number(t), wire.dec_number(v)])
   cuts = draw(st.lists(st.integers(1, max(1, len(stream) - 1)), max_size=10))
   return {'listener': 'line', 'stream': h(stream), 'cuts': sorted(set(cuts)), 'bounds': bounds,
-          'expected': expected}
+          'expected': expected, 'flow': draw(flow_events(len(expected)))}
 
 
 @st.composite
@@ -137,7 +137,7 @@ def pickle_cases(draw):
     bounds.append(len(stream))
   cuts = draw(st.lists(st.integers(1, max(1, len(stream) - 1)), max_size=10))
   return {'listener': 'pickle', 'stream': h(stream), 'cuts': sorted(set(cuts)), 'bounds': bounds,
-          'expected': expected, 'classes': sorted(classes)}
+          'expected': expected, 'classes': sorted(classes), 'flow': draw(flow_events(len(expected)))}
 
 
 # ------------------------------------------------------------------ oracle
@@ -161,10 +161,39 @@ def compare(ctx, case, got, label):
   return True
 
 
+@st.composite
+def flow_events(draw, n):
+  """Back-pressure while the stream is being received: after the i-th datapoint the daemon pauses its receivers
+  (cache / send queue full), after the j-th (j >= i; j == i: at once, as when the writer thread frees space
+  concurrently) it resumes them.  None: no back-pressure."""
+  if n < 1 or draw(st.integers(0, 2)):
+    return None
+  i = draw(st.integers(1, n))
+  return [i, draw(st.sampled_from([i, i, min(n, i + 1), draw(st.integers(i, n))]))]
+
+
+class FlowControl(object):
+  """metricReceived observer that plays the daemon's pauseReceivingMetrics / resumeReceivingMetrics events."""
+  def __init__(self, b, flow):
+    self.b = b
+    self.flow = flow
+    self.n = 0
+    if flow:
+      b.events.metricReceived.handlers.append(self)
+
+  def __call__(self, *args):
+    self.n += 1
+    if self.n == self.flow[0]:
+      self.b.events.pauseReceivingMetrics()
+    if self.n == self.flow[1]:
+      self.b.events.resumeReceivingMetrics()
+
+
 def run_tcp(ctx, case, cuts, label):
   env.reset()
   b = env.bootstrap()
   rec = env.Recorder(b.events.metricReceived)
+  FlowControl(b, case.get('flow'))
   lst = wire.Listener(case['listener'])
   data = bytes.fromhex(case['stream'])
   lst.feed(data, cuts)
@@ -181,6 +210,58 @@ def run_tcp(ctx, case, cuts, label):
   if not compare(ctx, case, got, label):
     return None
   return got
+
+
+NEIGHBOUR = [('neighbour.one', 1500000001.0, 1.0), ('neighbour.two', 1500000002.0, 2.5)]
+
+
+def neighbour_stream(kind):
+  if kind == 'line':
+    data = b'neighbour.one 1.0 1500000001\nneighbour.two 2.5 1500000002\n'
+    return [data[:18], data[18:40], data[40:]]
+  payload = pickle.dumps([(n, (t, v)) for n, t, v in NEIGHBOUR], protocol=2)
+  data = struct.pack('!I', len(payload)) + payload
+  return [data[:2], data[2:9], data[9:]]
+
+
+def run_two_connections(ctx, case, cuts):
+  """The same stream while (a) an earlier connection of the same listener ended in the middle of a line / frame and
+  (b) another connection receives its own datapoints in between this connection's segments: each connection's
+  datapoints arrive exactly as sent, in its own order."""
+  kind = case['listener']
+  label = 'two connections, cuts=%s' % cuts
+  env.reset()
+  b = env.bootstrap()
+  rec = env.Recorder(b.events.metricReceived)
+  prev = wire.Listener(kind)
+  prev.feed(b'previous.partial 1 15' if kind == 'line' else struct.pack('!I', 100) + b'\x80\x02')
+  prev.close()
+  a, nb = wire.Listener(kind), wire.Listener(kind)
+  data = bytes.fromhex(case['stream'])
+  segs_a = wire.segments(data, cuts)
+  segs_b = neighbour_stream(kind)
+  for i in range(max(len(segs_a), len(segs_b))):
+    for lst, segs in ((a, segs_a), (nb, segs_b)):
+      if i < len(segs) and not lst.escaped and not lst.transport.disconnecting:
+        lst.feed(segs[i])
+  for lst, who in ((a, 'this connection'), (nb, 'the neighbouring connection')):
+    if lst.escaped:
+      ctx.fail('C01:exception-escaped', '%s [%s]: %r escaped dataReceived of %s' % (kind, label, lst.escaped[0], who), case, 'no-exception')
+      return None
+    if lst.transport.disconnecting:
+      ctx.fail('C01:connection-closed', '%s [%s]: %s was closed on well-formed input' % (kind, label, who), case, 'no-disconnect')
+      return None
+    lst.close()
+  got = list(rec.items)
+  mine = [g for g in got if not (isinstance(g[0], str) and g[0].startswith('neighbour.'))]
+  theirs = [(g[0], float(g[1][0]), float(g[1][1])) for g in got if isinstance(g[0], str) and g[0].startswith('neighbour.')]
+  if theirs != NEIGHBOUR:
+    ctx.fail('C01:neighbour-connection-disturbed', '%s [%s]: the neighbouring connection sent %r, delivered %r' % (
+      kind, label, NEIGHBOUR, theirs), case, 'exactly-once')
+    return None
+  if not compare(ctx, case, mine, label):
+    return None
+  return mine
 
 
 def execute(ctx, case):
@@ -227,6 +308,8 @@ def execute(ctx, case):
   got = run_tcp(ctx, case, cuts, 'cuts=%s' % cuts)
   if got is None:
     return
+  if case.get('flow'):
+    classes.append('receivers paused and resumed while the stream arrives')
   ctx.note(case, nontrivial=len(exp) >= 2 and bool(inside), classes=[kind] + classes,
            key=[kind, case['stream'], cuts])
   # metamorphic: every segmentation gives the same result (each is also compared with
@@ -234,6 +317,10 @@ def execute(ctx, case):
   if run_tcp(ctx, case, [], 'whole') is None:
     return
   ctx.evaluations += 1
+  if not any(e[0].startswith('neighbour.') or e[0].startswith('previous.') for e in exp):
+    if run_two_connections(ctx, case, cuts) is None:
+      return
+    ctx.evaluations += 1
   if len(data) <= 4000:
     if run_tcp(ctx, case, list(range(1, len(data))), 'byte-by-byte') is None:
       return
